@@ -30,7 +30,7 @@ class FPEigh:
 
 class C03(Check):
     pid = 'C03'
-    validate = False
+    validate = True
     element_theory = 'FP64 (IEEE-754 binary64, round-to-nearest-even, z3 FloatingPoint) for the eigenvalue map and the floor filter; REAL elsewhere'
     anchors = [('src/fast_ticc/admm/solver.py', 'x_update_prox'), ('src/fast_ticc/graphical_lasso.py', '_zero_small_elements'),
                ('src/fast_ticc/graphical_lasso.py', '_reconstruct_optimized_matrix'),
@@ -69,9 +69,10 @@ class C03(Check):
         for rho in ([1.0] if q else [0.1, 0.5, 1.0, 2.0, 10.0]):
             for n in [1]:
                 cfgs.append(Config('eig_fp64_n%d_rho%s' % (n, rho), self.eig_fp, {'n': n, 'rho': rho},
-                                   prove_timeout_ms=600000, branch_timeout_ms=120000, nonlinear=True))
+                                   prove_timeout_ms=600000, branch_timeout_ms=120000, nonlinear=True,
+                                   witness_every=1))
         for n in ([1, 2, 3]):
-            cfgs.append(Config('filter_n%d' % n, self.filter, {'n': n}, prove_timeout_ms=120000))
+            cfgs.append(Config('filter_n%d' % n, self.filter, {'n': n}, prove_timeout_ms=120000, witness_every=1))
         cfgs.append(Config('reinflate_n3', self.reinflate, {'n': 3}))
         for n in ([1, 40, 100] if q else [1, 40, 100, 200]):
             cfgs.append(Config('logdet_n%d' % n, self.finite, {'n': n}))
@@ -103,6 +104,7 @@ class C03(Check):
         if not ok:
             return
         th = Rp.mc.reinflate_matrix(out)
+        c.outputs['theta_diag'] = [th[i, i] for i in range(n)]
         f = []
         for i in range(n):
             v = th[i, i]
@@ -126,6 +128,7 @@ class C03(Check):
         ok, M = guarded(c, 'floor_filter_exact_in_binary64', gl._reconstruct_optimized_matrix, st, vec)
         if not ok:
             return
+        c.outputs['filtered'] = M
         f, g, sym = [M.shape == (n, n)], [], []
         if f[0]:
             k = 0
